@@ -382,7 +382,7 @@ FUNCTIONS = [
 
 def gen_imp() -> str:
     import chartparse.chart  # noqa: F401  cycle-safe first import
-    L = [HEADER, "import Chartparse.Model.Imp", "namespace Chartparse.Gen.Imp", "open Chartparse.Imp\n"]
+    L = [HEADER, "import Chartparse.Model.Imp", "namespace Chartparse.Gen.Imp", "open Chartparse.PyImp\n"]
     L.append("/-! Loops and glue of /repo as terms of `Model/Imp.lean` (`Tie/Loop*.lean` proves each equal to the hand model). -/\n")
     report = []
     for lean, mod, qual in FUNCTIONS:
